@@ -287,7 +287,7 @@ class Progress:
         C, N, X, N2 = st
         k = n.kind
         e = n.e
-        if k == 'case' and self.eof and n.label not in (None, 'default') and n.pred and all(p.kind in ('switch', 'case') for p in n.pred):
+        if k == 'case' and n.label not in (None, 'default') and n.pred and all(p.kind in ('switch', 'case') for p in n.pred):
             # `switch (peek().type) { case TokenType::K: …` with K other than end-of-input: not at end (only when the label is
             # entered from the switch itself, not by falling through from statements of an earlier case)
             sw = [p for p in n.pred if p.kind == 'switch']
@@ -303,8 +303,13 @@ class Progress:
             if sw and SX.is_node(sw[0].e) and SX.is_node(sw[0].e.get('c')):
                 c = SX.strip(sw[0].e['c'])
                 self._node = sw[0]
-                if SX.is_node(c) and c.get('k') == 'member' and c.get('name') == 'type' and self._is_current_token(c.get('base')) \
+                if self.eof and SX.is_node(c) and c.get('k') == 'member' and c.get('name') == 'type' and self._is_current_token(c.get('base')) \
                         and not str(n.label).endswith(self.eof) and SX.is_node(n.e.get('v')) and SX.strip(n.e['v']).get('kind') == 'enum':
+                    return (C, 1, X, N2)
+                # `switch (peek()) { case 'f': …` — the scanner's peek() yields '\0' at end of input, so a non-NUL label is
+                # the same evidence as the comparison `peek() == 'f'`
+                v = SX.strip(n.e.get('v')) if SX.is_node(n.e) else None
+                if SX.is_node(c) and self._is_peek_or_alias(_peel(c)) and SX.is_node(v) and v.get('k') == 'char' and v.get('v') != 0:
                     return (C, 1, X, N2)
             return (C, N, X, N2)
         if k == 'edge':
